@@ -27,20 +27,21 @@ Obs(rec, k, b, i) == SubSeq(rec.obs[k][b], i, i) = "1"
 BadDoc(rec) ==
   UNION {UNION {
      LET blk == rec.blocks[b] c == rec.combos[k][1] st == rec.combos[k][2] IN
-     {<<k, b, i>> : i \in {i \in DOMAIN Corpus : ~DocAccepts(Obs(rec, k, b, i), blk, WithState(Corpus[i], st), c)}}
+     {<<k, b, i>> : i \in {i \in DOMAIN Corpus : Obs(rec, k, b, i) # DocMarkerApplies(rec.blocks, b, WithState(Corpus[i], st), c)}}
      : b \in DOMAIN rec.blocks} : k \in DOMAIN rec.combos}
 BadImpl(rec) ==
   UNION {UNION {
      LET blk == rec.blocks[b] c == rec.combos[k][1] st == rec.combos[k][2]
          m == DefaultRuleMatch(blk.match, DefaultMatchStates(c)) IN
      {<<k, b, i>> : i \in {i \in DOMAIN Corpus :
-          Obs(rec, k, b, i) # (st \in Live /\ IsMatchBlock(WithState(Corpus[i], st), c, blk.ignore, m))}}
+          Obs(rec, k, b, i) # ImplMarkerApplies(rec.blocks, b, WithState(Corpus[i], st), c)}}
      : b \in DOMAIN rec.blocks} : k \in DOMAIN rec.combos}
 
 \* signature material of a failing point: the sub-blocks of the block, command, state, rule
 Describe(rec, p) ==
   LET e == Corpus[p[3]] IN
-  [block |-> p[2], match |-> rec.blocks[p[2]].match, ignore |-> rec.blocks[p[2]].ignore, cmd |-> rec.combos[p[1]][1],
+  [block |-> p[2], match |-> rec.blocks[p[2]].match, ignore |-> rec.blocks[p[2]].ignore,
+   shared |-> Cardinality(SameMarker(rec.blocks, p[2])) > 1, nblocks |-> Len(rec.blocks), cmd |-> rec.combos[p[1]][1],
    state |-> rec.combos[p[1]][2], src |-> rec.src, observed |-> Obs(rec, p[1], p[2], p[3]), idx |-> p[3],
    rule |-> [rkind |-> e.rkind, name |-> e.name, path |-> e.path, labels |-> e.labels, glabels |-> e.glabels,
              annotations |-> e.annotations, for |-> e.for, kff |-> e.kff]]
